@@ -297,6 +297,9 @@ Definition k_pull_distinct_over_2048 (uniques_in_chunk : Z) : bool := 2048 <? un
     FALSE alike ([0u8.hash] and [false.hash] both write the byte 0): the input contains both *)
 Definition k_null_and_false (rows : list row) : bool :=
   existsb (fun v => val_eqb v VNull) (concat rows) && existsb (fun v => val_eqb v (VBool false)) (concat rows).
+(** C17-K11: ParallelPipelineConfig::preserve_order is never read: with at least two workers and two
+    morsels the output order is the workers' publication order *)
+Definition k_preserve_order_ignored (workers morsels : Z) : bool := (2 <=? workers) && (2 <=? morsels).
 (** the same for large tables: count, sum and sum of squares of the output ids *)
 Definition chk_par_sig (ks : list kspec) (cnt a b m : Z) (count sum sumsq : Z) : bool :=
   let ids := map (fun hr => row_id (snd hr)) (spec_chain ks (mk_hrows (gen_rows cnt a b m))) in
